@@ -2179,7 +2179,18 @@ func main() {
 
 	add := func(kind string, in Input) {
 		s := formerShape(in)
-		obs := env.run(in)
+		// a panic inside gorm is an observation (error class 2) of this input, not the end of the run
+		obs := func() (o []Obs) {
+			defer func() {
+				if p := recover(); p != nil {
+					rel := fams[in.Fam].rels()[in.Rel]
+					mode := map[string]string{"preload": "MPreload", "joins": "MJoins", "assoc": "MAssocFind"}[in.Mode]
+					o = []Obs{{Rel: in.Rel, Mode: mode, M2M: rel.M2M, Att: [][]int64{}, Err: 2, ErrText: fmt.Sprint("panic: ", p),
+						hop: Hop{Single: rel.Single, Cond: Cond{Kind: "all"}, Poly: rel.Poly}, hop2: Hop{Cond: Cond{Kind: "all"}}}}
+				}
+			}()
+			return env.run(in)
+		}()
 		for _, o := range obs {
 			att, total := 0, len(o.children)
 			distinctSets := map[string]bool{}
